@@ -42,6 +42,11 @@ def build(case):
     fore = S.forecast(region, rates=rates)
     for f in case.get("scale_history", []):
         fore.scale(f)
+    if case.get("array_scale"):
+        # scale() documents "int, float, or ndarray": per-magnitude-bin or per-cell factors
+        nc_, nm_ = rates.shape
+        arr = numpy.array([[1.0 + 0.5 * (j % 3) for j in range(nm_)]]) if case["array_scale"] == "row" else numpy.array([[0.5 + 0.25 * (i % 5)] for i in range(nc_)])
+        fore.scale(arr)
     obs = [(0, 0)] * case["n"]
     cat = S.catalog(region, obs=obs)
     return S, fore, cat
@@ -56,6 +61,14 @@ def check_case(ctx, case):
     # expected mean from the case itself (rates scaled to case["mu"], last scale factor wins), never from the library
     hist = case.get("scale_history", [])
     mu = case["mu"] * (hist[-1] if hist else 1.0)
+    if case.get("array_scale"):
+        base = S.rates / S.rates.sum() * case["mu"]
+        nc_, nm_ = base.shape
+        arr = numpy.array([[1.0 + 0.5 * (j % 3) for j in range(nm_)]]) if case["array_scale"] == "row" else numpy.array([[0.5 + 0.25 * (i % 5)] for i in range(nc_)])
+        mu = math.fsum((base * arr).ravel().tolist())
+        if numpy.ndim(fore.event_count) != 0:
+            ctx.violation("forecast_total_not_a_scalar_after_array_scaling", {"shape": list(numpy.shape(fore.event_count))})
+            return
     got_mu = float(fore.event_count)
     if abs(got_mu - mu) > 1e-9 * mu:
         ctx.violation("forecast_total_wrong_after_scaling", {"got": got_mu, "want": mu, "history": hist})
@@ -103,7 +116,7 @@ def check_case(ctx, case):
         ctx.violation(name + ":observed_statistic_not_event_count", {"got": o.value.observed_statistic, "n": n})
     # monotone in the forecast mean (Poisson only: the Poisson family is stochastically increasing in its mean; the
     # NBD family at fixed variance is not, so no monotonicity is demanded there)
-    if case["k"] != "poisson":
+    if case["k"] != "poisson" or case.get("array_scale"):
         return
     prev = None
     for f in sorted(case.get("mean_factors", [])):
@@ -196,7 +209,10 @@ def cases(draw):
     n = draw(st.one_of(st.sampled_from([0, 1, 2]), st.integers(-4, 4).map(lambda z: max(0, int(round(eff + z * sd)))),
                        st.integers(0, 200), st.just(max(0, int(eff)))))
     n = min(n, 100000)
-    c = {"k": kind, "setup": setup, "mu": mu, "scale_history": hist, "n": n,
+    arr_scale = draw(st.sampled_from([None, None, None, "row", "col"]))
+    if arr_scale:
+        eff = mu   # the array factors are O(1); n is drawn around the unscaled mean, which is fine for the tails
+    c = {"k": kind, "setup": setup, "mu": mu, "scale_history": hist, "n": n, "array_scale": arr_scale,
          "mean_factors": draw(st.lists(st.floats(0.2, 5).map(lambda x: float("%.3g" % x)), max_size=4, unique=True))}
     if kind == "nbd":
         c["var_factor"] = 1 + float("%.4g" % 10 ** draw(st.floats(-3, 4)))
